@@ -149,26 +149,26 @@ func (r *RequestContext) Request() *heimdall.Request {
 func (r *RequestContext) requestClientIPs() []string {
 	var ips []string
 
-	if forwarded := r.req.Header.Get("Forwarded"); len(forwarded) != 0 {
-		values := strings.Split(forwarded, ",")
-		ips = make([]string, len(values))
-
-		for idx, val := range values {
-			for _, val := range strings.Split(strings.TrimSpace(val), ";") {
-				if addr, found := strings.CutPrefix(strings.TrimSpace(val), "for="); found {
-					ips[idx] = addr
+	// a header sent on multiple lines is a single list. Parameter names are case-insensitive, and
+	// not every element needs to have the "for" parameter (RFC 7239, section 4).
+	if forwarded := strings.Join(r.req.Header.Values("Forwarded"), ","); len(forwarded) != 0 {
+		for _, element := range strings.Split(forwarded, ",") {
+			for _, param := range strings.Split(element, ";") {
+				name, value, found := strings.Cut(strings.TrimSpace(param), "=")
+				if found && strings.EqualFold(name, "for") {
+					ips = append(ips, value)
 				}
 			}
 		}
 	}
 
 	if ips == nil {
-		if forwardedFor := r.req.Header.Get("X-Forwarded-For"); len(forwardedFor) != 0 {
+		if forwardedFor := strings.Join(r.req.Header.Values("X-Forwarded-For"), ","); len(forwardedFor) != 0 {
 			ips = slicex.Map(strings.Split(forwardedFor, ","), strings.TrimSpace)
 		}
 	}
 
-	ips = append(ips, httpx.IPFromHostPort(r.req.RemoteAddr)) // nolint: makezero
+	ips = append(ips, httpx.IPFromHostPort(r.req.RemoteAddr))
 
 	return ips
 }
